@@ -6,7 +6,14 @@
 #include "common/clock_shim.h"
 #include "cache_storage.h"
 #include "base_cache.h"
+#include "cache_over_ip.h"
+#include "tcp_cache_server.h"
+#include <cppcms/session_storage.h>
+#include <booster/shared_ptr.h>
 #include <booster/intrusive_ptr.h>
+#include <sys/socket.h>
+#include <netinet/in.h>
+#include <memory>
 #include <thread>
 #include <atomic>
 #include <chrono>
@@ -57,15 +64,23 @@ static std::string hist_json(std::vector<rec> const &h, size_t maxn = 80)
 struct plan_op { int kind; std::string key; std::set<std::string> trig; long dl; size_t vlen; };
 
 static std::atomic<long> g_progress(0);
+static std::atomic<long> g_epoch(0);     // makes stored values unique across the histories that share a network world
 
+static void run_threads(std::vector<booster::intrusive_ptr<base_cache> > const &nodes, std::vector<std::vector<plan_op> > const &plans, std::vector<rec> &history);
 static void run_threads(booster::intrusive_ptr<base_cache> c, std::vector<std::vector<plan_op> > const &plans, std::vector<rec> &history)
 {
+	run_threads(std::vector<booster::intrusive_ptr<base_cache> >(1, c), plans, history);
+}
+static void run_threads(std::vector<booster::intrusive_ptr<base_cache> > const &nodes, std::vector<std::vector<plan_op> > const &plans, std::vector<rec> &history)
+{
 	int T = (int)plans.size();
+	g_epoch++;
 	std::vector<std::vector<rec> > logs(T);
 	std::atomic<int> ready(0); std::atomic<bool> go(false);
 	std::vector<std::thread> th;
 	for (int t = 0; t < T; t++) th.push_back(std::thread([&, t]() {
 		t_rng = 0x9E3779B97F4A7C15ull * (t + 1) + (uint64_t)now_ns();
+		base_cache *c = nodes[t % nodes.size()].get();
 		std::vector<rec> &log = logs[t];
 		log.reserve(plans[t].size());
 		ready++;
@@ -73,7 +88,7 @@ static void run_threads(booster::intrusive_ptr<base_cache> c, std::vector<std::v
 		uint64_t n = 0;
 		for (plan_op const &p : plans[t]) {
 			rec r; r.tid = t; r.kind = p.kind; r.key = p.key; r.trig = p.trig; r.dl = p.dl; r.hit = false; r.rdl = 0;
-			if (p.kind == STORE) { r.value = "t" + std::to_string(t) + "-" + std::to_string(++n) + ":"; r.value.append(p.vlen, (char)('a' + (n % 26))); }
+			if (p.kind == STORE) { r.value = "e" + std::to_string(g_epoch.load()) + "t" + std::to_string(t) + "-" + std::to_string(++n) + ":"; r.value.append(p.vlen, (char)('a' + (n % 26))); }
 			r.call = now_ns();
 			switch (p.kind) {
 			case STORE: c->store(p.key, r.value, p.trig, (time_t)p.dl); break;
@@ -213,6 +228,50 @@ static plan_op gen_op(rng &r, std::vector<std::string> const &keys, std::vector<
 	return p;
 }
 
+// ---- network cache: several application nodes (each one cache_over_ip object shared by its threads, optional shared L1)
+// in front of 1..2 multi-threaded tcp_cache_service servers. cache_over_ip::remove() is documented N/A, so no REMOVE ops.
+static int free_port()
+{
+	static rng pr((uint64_t)getpid() * 7919u + (uint64_t)now_ns());
+	for (int i = 0; i < 200; i++) {
+		int p = 10000 + (int)pr.below(20000);
+		int s = socket(AF_INET, SOCK_STREAM, 0);
+		sockaddr_in a; memset(&a, 0, sizeof a); a.sin_family = AF_INET; a.sin_port = htons(p); a.sin_addr.s_addr = htonl(INADDR_LOOPBACK);
+		int ok = bind(s, (sockaddr *)&a, sizeof a);
+		close(s);
+		if (ok == 0) return p;
+	}
+	return 0;
+}
+struct net_world {
+	std::vector<std::unique_ptr<cppcms::impl::tcp_cache_service> > servers;
+	std::vector<booster::intrusive_ptr<base_cache> > nodes;
+	std::string desc;
+	net_world(rng &r, int max_nodes) {
+		int ns = r.range(1, 2), nn = r.range(1, max_nodes);
+		std::vector<std::string> ips; std::vector<int> ports;
+		for (int i = 0; i < ns; i++) {
+			int port = free_port();
+			booster::shared_ptr<cppcms::sessions::session_storage_factory> nosess;
+			servers.push_back(std::unique_ptr<cppcms::impl::tcp_cache_service>(new cppcms::impl::tcp_cache_service(cppcms::impl::thread_cache_factory(0), nosess, r.range(1, 3), "127.0.0.1", port)));
+			ips.push_back("127.0.0.1"); ports.push_back(port);
+		}
+		desc = std::to_string(ns) + " servers, nodes:";
+		for (int i = 0; i < nn; i++) {
+			booster::intrusive_ptr<base_cache> l1;
+			int kind = r.below(3);
+			if (kind) l1 = cppcms::impl::thread_cache_factory(kind == 2 ? r.range(1, 3) : 0);
+			nodes.push_back(cppcms::impl::tcp_cache_factory(ips, ports, l1));
+			desc += kind == 0 ? " noL1" : kind == 1 ? " L1" : " smallL1";
+		}
+	}
+	~net_world() { nodes.clear(); for (auto &s : servers) s->stop(); }
+};
+static plan_op gen_net_op(rng &r, std::vector<std::string> const &keys, std::vector<std::string> const &trigs)
+{
+	for (;;) { plan_op p = gen_op(r, keys, trigs, true); if (p.kind == REMOVE || p.kind == STATS) continue; return p; }
+}
+
 int main(int argc, char **argv)
 {
 	args a(argc, argv);
@@ -248,6 +307,51 @@ int main(int argc, char **argv)
 			O().count("ops", (long long)h.size());
 			O().seen("shapes", mix(mix(T, limit), nk));
 			if (hI == 0) O().sample("{\"threads\":" + std::to_string(T) + ",\"limit\":" + std::to_string(limit) + ",\"first_ops\":" + hist_json(h, 4) + "}");
+		}
+	} else if (mode == "netlong") {
+		long long hist = a.num("histories", 4);
+		int ops = (int)a.num("ops", 300);
+		for (long long hI = 0; hI < hist; hI++) {
+			net_world w(r, 3);
+			int T = r.range(2, (int)a.num("threads", 6));
+			std::vector<std::string> keys; int nk = r.range(2, 5); for (int i = 0; i < nk; i++) keys.push_back(i == 3 ? std::string("k\x01\xff") : "k" + std::to_string(i));
+			std::vector<std::vector<plan_op> > plans(T);
+			for (int t = 0; t < T; t++) for (int i = 0; i < ops; i++) plans[t].push_back(gen_net_op(r, keys, trigs));
+			std::vector<rec> h;
+			run_threads(w.nodes, plans, h);
+			check_l1(h, 0);
+			O().count("histories_net_long");
+			O().count("ops", (long long)h.size());
+			O().seen("shapes", mix(mix(T, fnv(w.desc)), nk));
+			if (hI == 0) O().sample("{\"threads\":" + std::to_string(T) + ",\"world\":" + jstr(w.desc) + ",\"first_ops\":" + hist_json(h, 4) + "}");
+		}
+	} else if (mode == "netshort") {
+		long long hist = a.num("histories", 300);
+		std::unique_ptr<net_world> w;
+		for (long long hI = 0; hI < hist; hI++) {
+			// a world serves a batch of short histories; it is cleared (sequentially) between them
+			if (!w || hI % 25 == 0) { w.reset(); w.reset(new net_world(r, 3)); }
+			w->nodes[0]->clear();
+			for (auto &n : w->nodes) { std::string tmp; n->fetch("a", &tmp, 0, 0); n->fetch("b", &tmp, 0, 0); }   // L1 copies are validated against the server anyway
+			int T = r.range(2, 3);
+			int ops = r.range(2, 6);
+			std::vector<std::string> keys = { "a", "b" };
+			std::vector<std::vector<plan_op> > plans(T);
+			for (int t = 0; t < T; t++) for (int i = 0; i < ops; i++) { plan_op p = gen_net_op(r, keys, trigs); p.vlen = 0; plans[t].push_back(p); }
+			std::vector<rec> h;
+			run_threads(w->nodes, plans, h);
+			check_l1(h, 0);
+			wgl wg(h);
+			mstate st;
+			bool ok = wg.go(0, st);
+			O().count("histories_net_short");
+			O().count("ops", (long long)h.size());
+			if (wg.timeout) O().count("linearizability_inconclusive");
+			else if (!ok) O().viol("netconc:history-not-linearizable", "no sequential order consistent with real time explains the results; " + w->desc, hist_json(h));
+			else O().count("histories_linearized");
+			uint64_t sh = fnv(w->desc); for (auto const &x : h) sh = mix(sh, (uint64_t)(x.kind * 7 + x.tid * 31 + (x.hit ? 3 : 0)) ^ fnv(x.key));
+			O().seen("shapes", sh);
+			if (hI == 0) O().sample("{\"world\":" + jstr(w->desc) + ",\"short_history\":" + hist_json(h, 20) + "}");
 		}
 	} else {
 		long long hist = a.num("histories", 2000);
